@@ -65,10 +65,6 @@ package agent
 //@   trusted
 //@   logcalls
 //@ end
-//@ func (i *AgentIPC) handleTags(client *IPCClient, seq uint64) (err error)
-//@   trusted
-//@   logcalls
-//@ end
 //@ func (i *AgentIPC) handleQuery(client *IPCClient, seq uint64) (err error)
 //@   trusted
 //@   logcalls
@@ -119,6 +115,7 @@ package agent
 //@ pure func isGateCommand(c string) bool { return c == handshakeCommand || c == authCommand }
 //@ func (i *AgentIPC) handleRequest(client *IPCClient, reqHeader *requestHeader) (err error)
 //@   requires wf: i != nil && client != nil && client.dec != nil && reqHeader != nil
+//@   requires agent: wfTagsAgent(i)
 //@   oldlet n0 := logN("ipcsent")
 //@   oldlet c0 := callN()
 //@   oldlet shaken := client.version != 0
@@ -262,5 +259,75 @@ package agent
 //@   assert("tags", "C31", equalTags(l, r))
 //@   assert("lists", "C31", equalLists(l, r))
 //@ }
+
+// ---------------------------------------------------------------- tag edits (C30)
+
+//@ import "github.com/hashicorp/serf/serf"
+
+// Serf accepts or rejects a tag set (size limit); the tags file is written by writeTagsFile. Both are logged.
+//@ func (s *serf.Serf) SetTags(tags map[string]string) (err error)
+//@   trusted
+//@   logcalls serfsettags
+//@   assigns
+//@ end
+//@ func (a *Agent) writeTagsFile(tags map[string]string) (err error)
+//@   trusted
+//@   logcalls tagsfile
+//@   assigns
+//@ end
+
+// the tags file is written only with tags Serf has accepted, and then with exactly those
+//@ func (a *Agent) SetTags(tags map[string]string) (err error)
+//@   logcalls agentsettags
+//@   requires wf: a != nil && a.agentConf != nil && a.serf != nil
+//@   oldlet s0 := callNOf("serfsettags")
+//@   oldlet f0 := callNOf("tagsfile")
+//@   ensures offered_to_serf_once [C30]: callNOf("serfsettags") == s0+1 && same(callArgOf[map[string]string]("serfsettags", s0), tags)
+//@   ensures rejected_not_persisted [C30]: !callRetOf("serfsettags", s0) ==> callNOf("tagsfile") == f0 && err != nil
+//@   ensures accepted_persisted [C30]: callRetOf("serfsettags", s0) && a.agentConf.TagsFile != "" ==>
+//@       callNOf("tagsfile") == f0+1 && same(callArgOf[map[string]string]("tagsfile", f0), tags)
+//@   ensures no_file_no_write [C30]: a.agentConf.TagsFile == "" ==> callNOf("tagsfile") == f0
+//@   ensures success_means_both [C30]: err == nil ==> callRetOf("serfsettags", s0) && (a.agentConf.TagsFile != "" ==> callRetOf("tagsfile", f0))
+//@ end
+
+// an RPC tag edit: previous tags minus the deleted keys plus the set keys, set keys winning
+//@ pure func tagDeleted(req tagsRequest, k string) bool {
+//@   return exists(func(j int) bool { return 0 <= j && j < len(req.DeleteTags) && req.DeleteTags[j] == k })
+//@ }
+//@ pure func wfTagsAgent(i *AgentIPC) bool {
+//@   return i != nil && i.agent != nil && i.agent.agentConf != nil && i.agent.serf != nil && i.agent.conf != nil &&
+//@     (i.agent.conf.Tags != nil ==> allocatedRef(i.agent.conf.Tags))
+//@ }
+//@ func (i *AgentIPC) handleTags(client *IPCClient, seq uint64) (err error)
+//@   logcalls
+//@   requires wf: wfTagsAgent(i) && client != nil && client.dec != nil
+//@   oldlet ok := nextDecodeOK[tagsRequest](client.dec)
+//@   oldlet req := nextDecoded[tagsRequest](client.dec)
+//@   oldlet prev := i.agent.conf.Tags
+//@   oldlet c0 := callNOf("agentsettags")
+//@   oldlet n0 := logN("ipcsent")
+//@   let edited := callArgOf[map[string]string]("agentsettags", c0)
+//@   ensures one_edit [C30]: ok ==> callNOf("agentsettags") == c0+1
+//@   ensures edit_keys [C30]: ok ==> forall(func(k string) bool {
+//@       return mapHas(edited, k) == (mapHas(req.Tags, k) || (mapHas(prev, k) && !tagDeleted(req, k))) })
+//@   ensures edit_values [C30]: ok ==> forall(func(k string) bool {
+//@       return (mapHas(req.Tags, k) ==> mapAt(edited, k) == mapAt(req.Tags, k)) &&
+//@         (!mapHas(req.Tags, k) && mapHas(prev, k) && !tagDeleted(req, k) ==> mapAt(edited, k) == old(mapAt(prev, k))) })
+//@   ensures previous_tags_untouched [C30]: forall(func(k string) bool { return mapHas(prev, k) == old(mapHas(prev, k)) && mapAt(prev, k) == old(mapAt(prev, k)) })
+//@   ensures one_reply_with_seq [C30,C25]: ok ==> logN("ipcsent") == n0+1 && logAt[uint64]("ipcsent", n0) == seq
+//@   ensures undecodable_no_effect [C30]: !ok ==> err != nil && callNOf("agentsettags") == c0 && logN("ipcsent") == n0
+//@   loop 1 vars tags map[string]string
+//@   loop 1 invariant copied [C30]: tags != nil && !same(tags, prev) && forall(func(k string) bool {
+//@       return mapHas(tags, k) == (visited(prev, k) && mapHas(prev, k) && !tagDeleted(req, k)) &&
+//@         (mapHas(tags, k) ==> mapAt(tags, k) == mapAt(prev, k)) })
+//@   loop 1 invariant prev_kept [C30]: forall(func(k string) bool { return mapHas(prev, k) == old(mapHas(prev, k)) && mapAt(prev, k) == old(mapAt(prev, k)) })
+//@   loop 2 vars ri=rangeindex int, delTag bool, key string, tags map[string]string
+//@   loop 2 invariant scanned [C30]: -1 <= ri && ri < len(req.DeleteTags) && delTag == exists(func(j int) bool { return 0 <= j && j <= ri && req.DeleteTags[j] == key })
+//@   loop 2 invariant copied [C30]: tags != nil && !same(tags, prev) && forall(func(k string) bool {
+//@       return mapHas(tags, k) == (visited(prev, k) && k != key && mapHas(prev, k) && !tagDeleted(req, k)) &&
+//@         (mapHas(tags, k) ==> mapAt(tags, k) == mapAt(prev, k)) })
+//@   loop 2 invariant current [C30]: visited(prev, key) && mapHas(prev, key)
+//@   loop 2 invariant prev_kept [C30]: forall(func(k string) bool { return mapHas(prev, k) == old(mapHas(prev, k)) && mapAt(prev, k) == old(mapAt(prev, k)) })
+//@ end
 
 // END-OF-CONTRACTS
